@@ -21,7 +21,8 @@ RULE = ("(a) all 21 import scripts are executed in a scratch copy of the working
         "rationals normalised to 1.  Non-trivial = (a) a regenerated file, (b) a table cell, (c) a vector with >= 1 impossible and >= 2 distinct "
         "valid entries; distinct by file name / cell / vector hash.")
 ASSUMPTIONS = ["the shipped raw data (xlsx, FAOSTAT csv, Rutgers csv) are the inputs; pandas/openpyxl versions are those of /venv",
-               "averaging tolerance 1e-9 relative to the largest valid magnitude"]
+               "averaging tolerance 1e-9 relative to the largest valid magnitude, plus 16 eps / (share of valid weight): the documented formula divides by 1 - sum(rejected weights)",
+               "weight shares down to 1e-6 are generated (1e-9 was tried: the result then leaves the range of the valid inputs by 3e-8 relative through that cancellation alone)"]
 EXHAUSTIVE = {"quick": True, "thorough": True}
 SENTINEL = 9.37e36
 PHASES = [["create_aquaculture_csv", "create_grasses_baseline_csv", "create_scp_csv", "create_biofuel_csv", "create_greenhouse_csv",
@@ -136,7 +137,8 @@ def avg_case(draw):
     valid = st.sampled_from([-100.0, 0.0, 1e5, -37.5]) | st.floats(-100, 1e5)
     impossible = st.sampled_from([9.37e36, -100.0001, 1e5 + 1, -1e30]) | st.floats(1e5 + 1e-6, 1e38) | st.floats(-1e38, -100 - 1e-6)
     vals = draw(st.lists(st.one_of(valid, valid, impossible), min_size=n, max_size=n))
-    ints = draw(st.lists(st.integers(0, 20), min_size=n, max_size=n).filter(lambda w: sum(w) > 0))
+    # weights are numerators over their sum: small integers, and now and then a huge one, so that the other shares become 1e-3 .. 1e-6
+    ints = draw(st.lists(st.integers(0, 20) | st.integers(0, 20) | st.sampled_from([10**3, 10**5, 10**6]), min_size=n, max_size=n).filter(lambda w: sum(w) > 0))
     return dict(kind="avg", percentages=vals, weights_num=ints)
 
 
@@ -166,7 +168,9 @@ def avg(ctx, c):
             ctx.fail("averaging-without-valid-input-does-not-return-the-sentinel", "got %r" % got, c)
         return
     exp = float(sum(Fraction(x) * wx for x, wx in valid) / wsum)
-    scale = max(1.0, max(abs(x) for x, _ in valid))
+    # the documented formula divides by 1 - (sum of rejected weights): with a valid share s that subtraction carries a relative rounding
+    # error of about eps / s, which is arithmetic, not a wrong average
+    scale = max(1.0, max(abs(x) for x, _ in valid)) * (1.0 + 16 * 2.2e-16 / float(wsum) / 1e-9)
     if not np.isfinite(got) or abs(got - exp) > 1e-9 * scale:
         ctx.fail("average-is-not-the-weighted-mean-of-the-valid-entries", "got %.12g, weighted mean of valid entries %.12g" % (got, exp), c)
     carriers = [x for x, wx in valid if wx > 0]
